@@ -3,10 +3,12 @@
 package tor
 
 import (
+	"context"
 	"io"
 
 	"github.com/jech/storrent/path"
 	"github.com/jech/storrent/peer"
+	"github.com/jech/storrent/webseed"
 )
 
 var vFlenNames = []string{"flen0", "flen1", "flen2"}
@@ -164,4 +166,60 @@ func H_C14_writer() {
 			}
 		}
 	}
+}
+
+var vFetchIndex, vFetchOffset, vFetchLength uint32
+var vFetches int
+
+// vFetchRecorder stands in for the web-seed fetch goroutines: it records the range handed to them.
+func vFetchRecorder(ctx context.Context, ws *webseed.GetRight, t *Torrent, index, offset, length uint32) {
+	vFetches++
+	vFetchIndex, vFetchOffset, vFetchLength = index, offset, length
+}
+
+// H_C14_maybeWebseed: the reservation made for a web-seed fetch: piece `index` (<= 4 blocks) holds
+// an arbitrary subset of its blocks, in-flight counters arbitrary: if a fetch is started, the range
+// handed to it lies inside the piece, starts at a hole whose first block nobody has in flight, and
+// EXACTLY the blocks of that range have their in-flight count raised by one.
+func H_C14_maybeWebseed() {
+	t, ps, total := vMkTorrent()
+	t.useWebseeds = true
+	t.webseeds = []webseed.Webseed{webseed.VNew("http://ws/", true)}
+	index := vU32("index")
+	vAssume(int64(index) < (total+int64(ps)-1)/int64(ps))
+	pl := t.Pieces.PieceLength(index)
+	vAssume(pl >= 1 && pl <= 4*16384)
+	for b := uint32(0); b*16384 < pl && b < 4; b++ {
+		if vBool([]string{"has0", "has1", "has2", "has3"}[b]) {
+			l := pl - b*16384
+			if l > 16384 {
+				l = 16384
+			}
+			t.Pieces.AddData(index, b*16384, make([]byte, l), 1)
+		}
+	}
+	x := vU32("x")
+	vAssume(int64(x) < (total+16383)/16384)
+	vAssume(t.inFlight[x] < 200)
+	pre := t.inFlight[x]
+	vFetches = 0
+	started := maybeWebseed(context.Background(), t, index, false)
+	delta := int(t.inFlight[x]) - int(pre)
+	if !started {
+		vReach("no-fetch")
+		vAssert(vFetches == 0 && delta == 0, "no fetch, no reservation")
+		return
+	}
+	vReach("fetch")
+	vAssert(vFetches == 1 && vFetchIndex == index, "one fetch, for the piece asked for")
+	o, l := vFetchOffset, vFetchLength
+	vAssert(o%16384 == 0 && l >= 1 && o < pl && l <= pl-o, "the range lies inside the piece, block aligned")
+	vAssert(l%16384 == 0 || o+l == pl, "the range ends at a block boundary or at the end of the piece")
+	cpp := ps / 16384
+	first := index*cpp + o/16384
+	n := (l + 16383) / 16384
+	in := vAnd(x >= first, x < first+n)
+	vAssert(delta == vIte(in, 1, 0), "exactly the blocks of the range are reserved, once each")
+	vAssert(vImp(x == first, pre == 0), "the range starts at a block nobody has in flight")
+	vAssert(!t.Pieces.VHasBlock(index, int(o/16384)), "the range starts at a hole")
 }
